@@ -11,9 +11,15 @@
 (* Alphabet (one trace = one behaviour on the real code; events are logged in real-time order    *)
 (* under one lock, a Send before its bytes become readable, a Deliver inside the Write call of   *)
 (* the bridge, a CloseEnd before it takes effect):                                               *)
-(*  Cfg      {lim, mode, via}          first event: bandwidth-limit class, gated|free, conn|stream *)
+(*  Cfg      {lim, mode, via, src}     first event: bandwidth-limit class, gated|free, conn|stream; *)
+(*                                     src (optional) = pkt: the source's tunnel connection came     *)
+(*                                     through the packet path (Handshake, TunnelOpen), too          *)
 (*  Send     {e, dir, n}               end e wrote n more bytes of its counter stream             *)
-(*  Attach   {}                        the target connection was attached to the bridge           *)
+(*  Attach   {k}                       the target connection was attached to the bridge (k: see   *)
+(*                                     TrAttach; fwd = this server is the target's node and       *)
+(*                                     forwards the tunnel to the source's node: its source end   *)
+(*                                     is the cross-node connection, "forgotten" = the connection *)
+(*                                     manager's entry is gone)                                   *)
 (*  Deliver  {dir, off, len, eq}       the bridge wrote len bytes to the receiving end of dir;    *)
 (*                                     off = the receiver's count so far, eq = they equal the     *)
 (*                                     sender's stream at [off, off+len)                          *)
@@ -57,8 +63,9 @@ VARIABLES cfg,        \* the Cfg record of the current trace (or Nil)
           tail,       \* TRUE while clause (b) is still demanded for `ender`
           stale,      \* the source was replaced and the replaced connection is still open
           void,       \* directions for which nothing is demanded any more (unclean source replacement)
-          fault       \* the injected transport behaviour of this trace ("" = none), part of every detail key
-vars == <<l, viol, cfg, sent, delivered, attached, ended, ender, tail, stale, void, fault>>
+          fault,      \* the injected transport behaviour of this trace ("" = none), part of every detail key
+          kind        \* how the target was attached ("" = SetTargetConnection called directly)
+vars == <<l, viol, cfg, sent, delivered, attached, ended, ender, tail, stale, void, fault, kind>>
 
 Dirs == {"s2t", "t2s"}
 Nil == [lim |-> "?", mode |-> "?", via |-> "?"]
@@ -67,29 +74,32 @@ OutOf(e) == IF e = "S" THEN "s2t" ELSE "t2s"
 Other(e) == IF e = "S" THEN "T" ELSE "S"
 
 Init == /\ l = 1 /\ viol = {} /\ cfg = Nil /\ sent = Zero /\ delivered = Zero /\ attached = FALSE
-        /\ ended = "none" /\ ender = "-" /\ tail = FALSE /\ stale = FALSE /\ void = {} /\ fault = ""
+        /\ ended = "none" /\ ender = "-" /\ tail = FALSE /\ stale = FALSE /\ void = {} /\ fault = "" /\ kind = ""
 
 Add(c, d) == viol' = viol \cup {V(c, d)}
 Also(x) == IF fault = "" THEN x ELSE fault \o "," \o x      \* injected faults accumulate in script order
 Ctx == "lim=" \o cfg.lim \o (IF fault = "" THEN "" ELSE ":" \o fault)
 \* violations that can only be told apart from others by the replaced, still open source connection
 \* carry that fact in front (so that one known-finding key can name them)
-St(x) == IF stale THEN "stale-source:" \o x ELSE x
+\* (likewise the closure / forgetting clauses of a tunnel this server forwards to the source's node)
+St(x) == IF stale THEN "stale-source:" \o x ELSE IF kind = "fwd" THEN "forwarded:" \o x ELSE x
 
 TrCfg == /\ Is("Cfg") /\ l' = l + 1
          /\ cfg' = [lim |-> Ev.lim, mode |-> Ev.mode, via |-> Ev.via]
-         /\ UNCHANGED <<viol, sent, delivered, attached, ended, ender, tail, stale, void, fault>>
+         /\ fault' = (IF Has("src") THEN Also("source=" \o Ev.src) ELSE fault)
+         /\ UNCHANGED <<viol, sent, delivered, attached, ended, ender, tail, stale, void, kind>>
 
 TrSend == /\ Is("Send") /\ l' = l + 1
           /\ sent' = [sent EXCEPT ![Ev.dir] = @ + Ev.n]
           \* the peer of a gracefully closed end speaks again: clause (b) no longer applies
           /\ tail' = (tail /\ Ev.e = ender)
-          /\ UNCHANGED <<viol, cfg, delivered, attached, ended, ender, stale, void, fault>>
+          /\ UNCHANGED <<viol, cfg, delivered, attached, ended, ender, stale, void, fault, kind>>
 
 \* k (optional): pkt = through the packet path (Handshake, TunnelOpen), xnode = from another node through
 \* the cross-node listener; absent = SetTargetConnection called directly
 TrAttach == /\ Is("Attach") /\ l' = l + 1 /\ attached' = TRUE
             /\ fault' = (IF Has("k") THEN Also("attach=" \o Ev.k) ELSE fault)
+            /\ kind' = (IF Has("k") THEN Ev.k ELSE kind)
             /\ UNCHANGED <<viol, cfg, sent, delivered, ended, ender, tail, stale, void>>
 
 TrDeliver ==
@@ -101,7 +111,7 @@ TrDeliver ==
      ELSE IF ~Ev.eq THEN Add("Prefix", "corrupt:" \o Ev.dir \o ":" \o Ctx)
      ELSE IF delivered[Ev.dir] + Ev.len > sent[Ev.dir] THEN Add("Prefix", "beyond-sent:" \o Ev.dir \o ":" \o Ctx)
      ELSE viol' = viol
-  /\ UNCHANGED <<cfg, sent, attached, ended, ender, tail, stale, void, fault>>
+  /\ UNCHANGED <<cfg, sent, attached, ended, ender, tail, stale, void, fault, kind>>
 
 \* replace: the source client re-opened the tunnel on a new connection.  The statement does not speak
 \* about reconnects; the judge keeps demanding the pipe clauses for the logical source end only after a
@@ -117,7 +127,7 @@ TrEnv == /\ Is("Env") /\ l' = l + 1
                       ELSE IF Ev.a = "routefail" THEN Also("route=delete-fails")
                       ELSE IF Ev.a = "statstall" THEN Also("stats=stalled")
                       ELSE IF Ev.a = "hold" THEN Also("held>heartbeat") ELSE fault)
-         /\ UNCHANGED <<viol, cfg, sent, delivered, attached, ended, ender>>
+         /\ UNCHANGED <<viol, cfg, sent, delivered, attached, ended, ender, kind>>
 
 TrCloseEnd ==
   /\ Is("CloseEnd") /\ l' = l + 1
@@ -128,7 +138,7 @@ TrCloseEnd ==
      ELSE /\ ended' = ended /\ ender' = ender
           /\ tail' = FALSE                       \* a second end closed or failed
   /\ fault' = (IF Has("w") /\ Ev.w = "data" THEN Also(IF Ev.kind = "close" THEN "read=data+eof" ELSE "read=data+error") ELSE fault)
-  /\ UNCHANGED <<viol, cfg, sent, delivered, attached, stale, void>>
+  /\ UNCHANGED <<viol, cfg, sent, delivered, attached, stale, void, kind>>
 
 \* clause (a); the judge recounts, it does not rely on the driver's flag
 Short == {d \in Dirs \ void : delivered[d] # sent[d]}
@@ -138,7 +148,7 @@ TrDrain ==
      THEN Add("Complete", Ctx \o ":" \o (IF Ev.ok THEN "miscounted" ELSE Ev.why) \o ":" \o
                           (IF Short = Dirs THEN "both" ELSE IF "s2t" \in Short THEN "s2t" ELSE "t2s"))
      ELSE viol' = viol
-  /\ UNCHANGED <<cfg, sent, delivered, attached, ended, ender, tail, stale, void, fault>>
+  /\ UNCHANGED <<cfg, sent, delivered, attached, ended, ender, tail, stale, void, fault, kind>>
 
 Judged == ended \in {"close", "error", "short"}
 EndCtx == "end=" \o ender \o ":" \o ended \o ":" \o Ctx
@@ -147,22 +157,22 @@ TrClosure ==
   /\ Is("Closure") /\ l' = l + 1
   /\ IF Judged /\ attached /\ Ev.e = Other(ender) /\ ~Ev.seen
      THEN Add("Closure", St("not-observed:" \o EndCtx)) ELSE viol' = viol
-  /\ UNCHANGED <<cfg, sent, delivered, attached, ended, ender, tail, stale, void, fault>>
+  /\ UNCHANGED <<cfg, sent, delivered, attached, ended, ender, tail, stale, void, fault, kind>>
 
 TrForgot ==
   /\ Is("Forgot") /\ l' = l + 1
   /\ IF Judged /\ attached /\ Ev.n # 0
      THEN Add("Forgotten", St("still-registered:" \o EndCtx)) ELSE viol' = viol
-  /\ UNCHANGED <<cfg, sent, delivered, attached, ended, ender, tail, stale, void, fault>>
+  /\ UNCHANGED <<cfg, sent, delivered, attached, ended, ender, tail, stale, void, fault, kind>>
 
 \* the server process died with a panic in tunnox-core code while running this tunnel: every tunnel of
 \* the server is cut and nothing is "forgotten" in an orderly way
 TrCrash == /\ Is("Crash") /\ l' = l + 1
            /\ Add("Crash", IF Ev.fn = "typed-nil-conn" THEN Ev.fn ELSE "panic:" \o Ev.fn)
-           /\ UNCHANGED <<cfg, sent, delivered, attached, ended, ender, tail, stale, void, fault>>
+           /\ UNCHANGED <<cfg, sent, delivered, attached, ended, ender, tail, stale, void, fault, kind>>
 
 TrCounters == /\ Is("Counters") /\ l' = l + 1
-              /\ UNCHANGED <<viol, cfg, sent, delivered, attached, ended, ender, tail, stale, void, fault>>
+              /\ UNCHANGED <<viol, cfg, sent, delivered, attached, ended, ender, tail, stale, void, fault, kind>>
 
 \* clause (b) is settled at the end of the trace (the driver has waited for the tunnel to go away)
 TailViol == IF tail /\ attached /\ OutOf(ender) \notin void /\ delivered[OutOf(ender)] # sent[OutOf(ender)]
@@ -172,7 +182,7 @@ TrEnd == /\ Is("End")
          /\ PrintT("VERDICT " \o ToJson([tr |-> Ev.tr, viol |-> SetToSeq(viol \cup TailViol)]))
          /\ l' = l + 1
          /\ viol' = {} /\ cfg' = Nil /\ sent' = Zero /\ delivered' = Zero /\ attached' = FALSE
-         /\ ended' = "none" /\ ender' = "-" /\ tail' = FALSE /\ stale' = FALSE /\ void' = {} /\ fault' = ""
+         /\ ended' = "none" /\ ender' = "-" /\ tail' = FALSE /\ stale' = FALSE /\ void' = {} /\ fault' = "" /\ kind' = ""
 
 Next == TrCfg \/ TrSend \/ TrAttach \/ TrDeliver \/ TrEnv \/ TrCloseEnd \/ TrDrain
         \/ TrClosure \/ TrForgot \/ TrCounters \/ TrCrash \/ TrEnd
